@@ -36,6 +36,7 @@ type Movie @bnd(s: "A B C") @arr(s: "B") {
   lead: Person @owner(s: "B")
   echoArg(s: String, k: Kind, l: [String!]): Echo @owner(s: "B")
   rating: Float @owner(s: "C")
+  echoC(s: String, l: [String!]): Echo @owner(s: "C")
   similar: [Movie] @owner(s: "C")
   score: Big @owner(s: "C")
 }
@@ -64,7 +65,7 @@ union Thing @svc(s: "B") = Person | Review
 enum Color @svc(s: "A") { RED GREEN BLUE }
 enum Kind @svc(s: "B") { SHORT LONG }
 scalar Big @svc(s: "C")
-scalar Echo @svc(s: "A B")
+scalar Echo @svc(s: "A B C")
 input In @svc(s: "A") { a: String b: [Int] c: In e: Color }
 type Mutation {
   addMovie(title: String!): Movie @owner(s: "A")
